@@ -181,6 +181,31 @@ def main(tier_: str) -> int:
                 tc = timedelta_to_timecode(x, ts)
                 td = timecode_to_timedelta(tc, ts)
                 add({'ev': 'td', 'x': {'s': s, 'u': u}, 'ts': ts, 'tc': int(tc), 'dur': dur_of(td)})
+        # ---- scale_timedelta: deltas from microseconds to weeks (the days field of a timedelta matters from 24 hours on) ----
+        from dashlive.utils.date_time import scale_timedelta
+        nscale = 0
+        for num, denom in ((1, 1), (25, 1), (240, 960), (1000, 1), (1000, 3997), (240, 1), (25, 48)):
+            lim_s = (2**31 - 1) // num - 2
+            xs = [(0, 0), (0, 1), (0, 999999), (1, 0), (59, 500000), (3600, 0), (86399, 999999), (86400, 0), (86400, 1), (86401, 0),
+                  (2 * 86400 - 1, 999999), (2 * 86400, 0), (7 * 86400 + 3, 250000), (31 * 86400, 0), (400 * 86400 + 17, 5)]
+            xs += [(rng.randrange(0, 60 * 86400), rng.randrange(10**6)) for _ in range(40 if tier_ == 'quick' else 1500)]
+            xs = sorted({(s_, u_) for s_, u_ in xs if s_ <= lim_s})
+            prev_got = None
+            for s_, u_ in xs:
+                ln = {'ev': 'scale', 'x': {'s': s_, 'u': u_}, 'num': num, 'denom': denom, 'got': 0, 'ok': 0,
+                      'has_prev': 0 if prev_got is None else 1, 'prev_got': prev_got or 0}
+                try:
+                    g = scale_timedelta(datetime.timedelta(seconds=s_, microseconds=u_), num, denom)
+                    ln['got'] = int(g)
+                    ln['ok'] = 1 if abs(g) < 2**31 else 0
+                    if not ln['ok']:
+                        ln['got'] = 0
+                    prev_got = ln['got'] if ln['ok'] else prev_got
+                except Exception as err:      # noqa: BLE001
+                    ln['exc'] = type(err).__name__
+                add(ln)
+                nscale += 1
+        out.coverage['scale_timedelta_lines'] = nscale
         vs, st = validate_trace('IsoTimeTrace', lines, workdir=d, chunk=60000, parallel=12, timeout=1800)
         drift = 0
         seen: set[tuple] = set()
@@ -190,7 +215,7 @@ def main(tier_: str) -> int:
                 drift += 1
                 continue
             case = {k: lo[k] for k in lo if k != 'tid'}
-            key = (v['clause'], lo['ev'], lo.get('text'))
+            key = (v['clause'], lo['ev'], lo.get('text'), lo.get('num'), lo.get('denom'))
             if key in seen:
                 continue
             seen.add(key)
